@@ -157,9 +157,14 @@ func main() {
 	}
 
 	corpus(c, or)
-	nTries, nSynth, nRange := 150, 1200, 25
+	nTries, nSynth, nRange := 150, 1200, 16
 	if c.Thorough() {
 		nTries, nSynth, nRange = 2500, 30000, 800
+		cyclicMax = 6
+	}
+	only := os.Getenv("C10_ONLY") // development aid: "range" runs the range-proof part alone
+	if only == "range" {
+		nTries, nSynth = 0, 0
 	}
 	// small heights: Prove correspondence + model verifiers; height 251: everything
 	for i := 0; i < nTries; i++ {
@@ -185,8 +190,10 @@ func main() {
 		tc.Hash = "ped"
 		evalRanges(c, or, r, tc)
 	}
-	cachedHashProbe(c, r)
-	runRPC(c, r.Fork(0x10))
+	if only == "" {
+		cachedHashProbe(c, r)
+		runRPC(c, r.Fork(0x10))
+	}
 	c.Extra["term_evaluations_memoised"] = len(termMemo)
 	c.Finish("every generated trie/key: Prove sets == model, VerifyProof(own proof) == actual value; every single-field corruption: never a different value and == model verifier; synthetic chains: verifiers == model; RPC proofs verify with an independent verifier against GlobalStateRoot")
 }
